@@ -269,4 +269,36 @@ def cmd_show(argv):
 
 if __name__ == '__main__':
     cmd = sys.argv[1] if len(sys.argv) > 1 else 'scan'
-    {'scan': cmd_scan, 'tests': cmd_tests, 'show': cmd_show}[cmd](sys.argv[2:])
+    if cmd != 'rescan':
+        {'scan': cmd_scan, 'tests': cmd_tests, 'show': cmd_show}[cmd](sys.argv[2:])
+
+
+def cmd_rescan(argv):
+    """Re-evaluates only the mutants that were silent in the last scan (after rules changed)."""
+    import multiprocessing as mp
+    scan = json.load(open(os.path.join(OUT, 'scan.json')))
+    jobs = []
+    for x in scan:
+        if x['status'] != 'silent':
+            continue
+        path, idx = x['file'], x['line'] - 1
+        lines = open(os.path.join(REPO, path)).read().split('\n')
+        cand = [(i, op, nw) for (i, op, nw) in mutations(path) if i == idx and op == x['op']]
+        if cand:
+            jobs.append((path, idx, x['op'], cand[0][2], lines[idx]))
+    res = []
+    with mp.Pool(6, initializer=_init_worker) as pool:
+        for r in pool.imap_unordered(scan_one, jobs, chunksize=2):
+            res.append(r)
+    json.dump(res, open(os.path.join(OUT, 'rescan.json'), 'w'), indent=0)
+    still = [r for r in res if r['status'] == 'silent']
+    print('%d re-evaluated, %d still silent' % (len(res), len(still)))
+    for x in sorted(still, key=lambda x: (x['file'], x['line'])):
+        print('%s:%d [%s]  %s   =>   %s' % (x['file'].replace('src/scheduler/', ''), x['line'], x['op'], x['old'][:70], (x['new'] or '<deleted>')[:70]))
+    for d in os.listdir('/var/tmp'):
+        if d.startswith('dsa-mutscan-') and not os.path.exists(os.path.join('/var/tmp', d, 'repo', '.config')):
+            shutil.rmtree(os.path.join('/var/tmp', d), ignore_errors=True)
+
+
+if __name__ == '__main__' and len(sys.argv) > 1 and sys.argv[1] == 'rescan':
+    cmd_rescan(sys.argv[2:])
